@@ -4,6 +4,7 @@
 package main
 
 import (
+	"os"
 	"github.com/bokysan/socketace/v2/internal/socketace"
 	"fmt"
 	"io"
@@ -33,14 +34,26 @@ type cfgGetter struct{ c cert.TlsConfig }
 
 func (g cfgGetter) CertManager() cert.TlsConfig { return g.c }
 
+// freePort: a TCP port nobody listens on, taken from a range that belongs to this process (several harness processes run side by
+// side; with kernel-chosen ports two of them could be handed the same number between probing and binding)
+var portCursor int
+
 func freePort() int {
-	l, err := net.Listen("tcp", "127.0.0.1:0")
-	if err != nil {
-		panic(err)
+	base := 10000 + (os.Getpid()%22)*1000 // below the kernel's ephemeral range (32768..)
+	for k := 0; k < 1000; k++ {
+		p := base + (portCursor % 1000)
+		portCursor++
+		l, err := net.Listen("tcp", fmt.Sprintf("127.0.0.1:%d", p))
+		if err != nil {
+			continue
+		}
+		l.Close()
+		if u, err := net.ListenPacket("udp", fmt.Sprintf("127.0.0.1:%d", p)); err == nil {
+			u.Close()
+			return p
+		}
 	}
-	p := l.Addr().(*net.TCPAddr).Port
-	l.Close()
-	return p
+	panic("verifharness: no free port in this process's range")
 }
 
 // startServer starts a real server of the given carrier kind on loopback; returns the upstream URL for a client and a stop function.
